@@ -12,6 +12,7 @@ Bounded EXHAUSTIVE enumeration with deviation bounding (nothing is sampled or ra
  (e) param       token strings as top-level parameter expressions
  (f) steady      identical requests repeated on the long-lived objects: outstanding memory must reach a steady state
  (g) entry       every public transform overload once with valid input
+ (h) outpos      a multi-byte character at every output offset around the serializer buffer boundaries
 """
 import os, sys, time, json, re, itertools, copy, shutil, struct
 from fractions import Fraction
@@ -814,6 +815,35 @@ PARAM_XSL = S('<xsl:output omit-xml-declaration="yes"/><xsl:param name="p" selec
               '<xsl:copy-of select="$p"/><xsl:if test="$p">y</xsl:if></o></xsl:template>')
 
 
+def blocks_outpos(tier):
+    """any Unicode at any output position: N ASCII characters followed by a 2-, 3- or 4-byte character (and an unpaired surrogate
+    through a character reference is not possible in XML, so: U+FFFD) in text / attribute / comment, for every N in a window that
+    slides the character across every offset of the serializers' 512-unit buffers (thorough: every N up to two buffers, three encodings)"""
+    thorough = tier == 'thorough'
+    out = []
+    pad = '<r><p>' + 'x' * 1200 + '</p></r>'
+    chars = [('U+00E9', '\u00e9'), ('U+20AC', '\u20ac'), ('U+1D11E', '\U0001D11E'), ('U+10FFFD', '\U0010FFFD')]
+    ns = list(range(0, 1100)) if thorough else list(range(430, 530)) + list(range(950, 1040, 3))
+    encs = ['UTF-8', 'UTF-16', 'ISO-8859-1'] if thorough else ['UTF-8']
+    ctxs = [('xml', 'text', '<o><xsl:value-of select="substring(/r/p,1,%d)"/>%s%s</o>'),
+            ('xml', 'attr', '<o a="{substring(/r/p,1,%d)}%s%s"/>'),
+            ('xml', 'comment', '<o><xsl:comment><xsl:value-of select="substring(/r/p,1,%d)"/>%s%s</xsl:comment></o>'),
+            ('html', 'text', '<html><body><xsl:value-of select="substring(/r/p,1,%d)"/>%s%s</body></html>'),
+            ('html', 'attr', '<html><body title="{substring(/r/p,1,%d)}%s%s"/></html>'),
+            ('text', 'text', '<xsl:value-of select="substring(/r/p,1,%d)"/>%s%s')]
+    for enc in encs:
+        for (method, where, body) in ctxs:
+            for lab, ch in chars:
+                def gen(enc=enc, method=method, where=where, body=body, lab=lab, ch=ch):
+                    for n in ns:
+                        x = S('<xsl:output method="%s" encoding="%s"/><xsl:template match="/">%s</xsl:template>' % (method, enc, body % (n, ch, ch + 'y' + ch + 'z' * 700)))
+                        c = tr_case('outpos', x, pad, '%s-%s:%s:%s' % (method, where, enc, lab), 'stream', ['o:strip=%d' % (2 if enc == 'UTF-16' else 1)], timeout=5)
+                        c['group'] = ('%s-%s:%s:%s' % (method, where, enc, lab), n * (2 if enc == 'UTF-16' else 1))
+                        yield c
+                out.append(('outpos', len(ns), gen))
+    return out
+
+
 def blocks_param(tier):
     thorough = tier == 'thorough'
     toks = tokens30()
@@ -885,7 +915,7 @@ ONLY = [x for x in os.environ.get('C03_ONLY', '').split(',') if x]     # debuggi
 
 
 def all_blocks(tier):
-    b = (blocks_entry(tier) + blocks_steady(tier) + blocks_magnitude(tier) + blocks_stylesheet(tier) + blocks_source(tier) +
+    b = (blocks_entry(tier) + blocks_steady(tier) + blocks_magnitude(tier) + blocks_outpos(tier) + blocks_stylesheet(tier) + blocks_source(tier) +
          blocks_param(tier) + blocks_xpath(tier))
     if ONLY:
         b = [x for x in b if x[0] in ONLY]
@@ -1091,6 +1121,7 @@ class Shard:
         self.viols = {}
         self.samples = {}
         self.ubsan_seen = set()
+        self.groups = {}
         self.suspended = set()
         self.slow = []
         self.err_off = 0
@@ -1253,6 +1284,15 @@ class Shard:
                     out.append(('rc0-but-error', site, {'reply': dict(r)}))
                 if rc != 0 and int(r['err']) == 0:
                     out.append(('rc-nonzero-without-message', site, {'reply': dict(r)}))
+                if c.get('group'):
+                    # outpos: the same content behind pads of different lengths: with the pad taken out (driver: o:strip) the output
+                    # must be the same for every pad length of the group
+                    g, padbytes = c['group']
+                    ol, oh = r['out'].split(',')
+                    obs = (rc, int(ol) - padbytes if rc == 0 else 0, oh if rc == 0 else '-')
+                    ref = self.groups.setdefault(g, (obs, case_text(c, 200)))
+                    if ref[0] != obs:
+                        out.append(('output-depends-on-position', site, {'this': obs, 'first_of_group': ref[0], 'first_case': ref[1], 'reply': dict(r)}))
             if r.get('recreated') != '1' and not poisoned and not out:
                 m0, m1 = [int(x) for x in r['mm'].split(',')]
                 h0, h1 = [int(x) for x in r['heap'].split(',')]
@@ -1570,7 +1610,9 @@ def main():
                 'UTF-16, BOMs; stream, parseSource native and Xerces. (d) magnitude: +-10^k (k=-330..310 step %d), 2^k and neighbours (k=-1080..1030 step %d) '
                 'through 37 number-consuming constructs, strings of 2^m characters (m<=%d), nesting depths 2^k (k<=%d) of source elements, 14 XPath '
                 'shapes, 9 stylesheet shapes, template recursion, import chains. (e) param: token strings of length <= %d as top-level parameter '
-                'expressions. (f) steady: 35 request classes repeated 60 times on the long-lived objects. (g) entry: every public transform overload. '
+                'expressions. (f) steady: 35 request classes repeated 60 times on the long-lived objects. (g) entry: every public transform overload. (h) outpos: N ASCII characters followed by a 2-, 3- and 4-byte character in text, attribute value '
+                'and comment of xml, html and text output for every N of a window sliding the character across all offsets of the 512-unit output buffers '
+                '(thorough: every N <= 1100 x UTF-8, UTF-16, ISO-8859-1). '
                 'Oracle per case: driver survives (a death is re-run alone), no ASan report, no new UBSan report, rc==0 xor (rc!=0 and a non-empty '
                 'message), no exception leaves the entry point, the golden transformation on the same transformer is exact afterwards, nothing stays '
                 'allocated after a transformer made for the request is destroyed, wall-clock limit. distinct_nontrivial (measured) = cases whose input '
